@@ -11,15 +11,15 @@ import (
 
 func init() {
 	evid.Tests(
-		evid.Spec{Name: "TestGrepEveryPair", Kind: "plain", QuickShards: 4, ThoroughShards: 8},
-		evid.Spec{Name: "TestGrepSubsets", Kind: "rapid", Quick: 320, Thorough: 9000, QuickShards: 4, ThoroughShards: 8},
-		evid.Spec{Name: "TestGrepPaired", Kind: "rapid", Quick: 200, Thorough: 6000, QuickShards: 2, ThoroughShards: 6},
-		evid.Spec{Name: "TestDistribute", Kind: "rapid", Quick: 160, Thorough: 4000, QuickShards: 2, ThoroughShards: 4},
-		evid.Spec{Name: "TestUnidentified", Kind: "rapid", Quick: 100, Thorough: 2500, QuickShards: 2, ThoroughShards: 4},
+		evid.Spec{Name: "TestGrepEveryPair", Kind: "plain", QuickShards: 4, ThoroughShards: 6},
+		evid.Spec{Name: "TestGrepSubsets", Kind: "rapid", Quick: 320, Thorough: 20000, QuickShards: 4, ThoroughShards: 8},
+		evid.Spec{Name: "TestGrepPaired", Kind: "rapid", Quick: 200, Thorough: 12000, QuickShards: 2, ThoroughShards: 6},
+		evid.Spec{Name: "TestDistribute", Kind: "rapid", Quick: 160, Thorough: 6000, QuickShards: 2, ThoroughShards: 3},
+		evid.Spec{Name: "TestUnidentified", Kind: "rapid", Quick: 100, Thorough: 4000, QuickShards: 2, ThoroughShards: 3},
 	)
 	evid.Commands("obigrep", "obidistribute", "obimultiplex")
 	ruleParts["grep"] = "Every case is one run of the real command (built from the tree under test) on generated files. " +
-		"obigrep: 1-12 (thorough 1-40) FASTA/FASTQ records with identifiers [ab1]{1,3}_<rank>, definitions of 0-3 words, lengths around two pivot lengths, " +
+		"obigrep: 1-12 (thorough up to 40) FASTA/FASTQ records with identifiers [ab1]{1,3}_<rank>, definitions of 0-3 words, lengths around two pivot lengths, " +
 		"count and string/int/float/bool/map annotations from small value sets, optionally a mate file; option values are read off the records " +
 		"(lengths/counts at value-1/value/value+1, patterns cut from a record's id/definition/sequence/annotation, expressions comparing with a record's values, " +
 		"id lists holding about half of the ids, clades on the path of a record's taxon in a generated dump). TestGrepEveryPair enumerates each of the 14 selection options alone, " +
@@ -38,7 +38,7 @@ func init() {
 // repeatable option twice - each plan with and without -v, on generated records.
 func TestGrepEveryPair(t *testing.T) {
 	plans := gAllPlans()
-	reps := evid.Pick(1, 12)
+	reps := evid.Pick(1, 20)
 	done := 0
 	for pi, plan := range plans {
 		if pi%evid.NShards() != evid.Shard() {
